@@ -734,6 +734,28 @@ def _getattr(self, a, st, k):
 
 
 Api.f_PyUnicode_Concat = _unicode_concat
+
+
+def _unicode_get_length(self, a, st, k):
+    """PyUnicode_GET_LENGTH(str): the number of code points (>= 0); the argument must be a str"""
+    st = self.nonnull(st, a[0], "PyUnicode_GET_LENGTH")
+    st = self.cx.require(st, is_inst(a[0], "PyUnicode_Type"), "valid-deref:PyUnicode_GET_LENGTH-on-a-str")
+    n = z3.Function("str_length", Obj, INT)(a[0])
+    return k(n, st.assume(n >= 0))
+
+
+def _unicode_read_char(self, a, st, k):
+    """PyUnicode_READ_CHAR(str, i): the code point at i; i must be inside the string"""
+    st = self.nonnull(st, a[0], "PyUnicode_READ_CHAR")
+    n = z3.Function("str_length", Obj, INT)(a[0])
+    i = as_int(a[1])
+    st = self.cx.require(st, z3.And(is_inst(a[0], "PyUnicode_Type"), 0 <= i, i < n), "bounds:PyUnicode_READ_CHAR")
+    c = z3.Function("str_char", Obj, INT, INT)(a[0], i)
+    return k(c, st.assume(c >= 0))
+
+
+Api.f_PyUnicode_GET_LENGTH = _unicode_get_length
+Api.f_PyUnicode_READ_CHAR = _unicode_read_char
 def _getattr_string(self, a, st, k):
     """PyObject_GetAttrString(o, "name"): a new reference or NULL with an exception; runs Python code"""
     st = self.nonnull(st, a[0], "PyObject_GetAttrString")
